@@ -29,11 +29,18 @@ pub struct MCase {
     pub z: u64,
     pub hops: Vec<Hop>,
     pub as_map: bool,
+    /// enclosing frame of every ambient hop: holds a decoy for the key being read (never `OtherKeys` here:
+    /// the sibling oracle counts the enumerated pairs)
+    #[serde(default)]
+    pub enclosing: crate::obs::Enclosing,
 }
 
-pub fn mcase(hops: impl Strategy<Value = Vec<Hop>>) -> impl Strategy<Value = MCase> {
-    (0u8..8, 0u8..8, 0u8..6, 0u8..3, any::<i64>(), crate::node::any_text(), any::<u64>(), hops, prop::bool::weighted(0.3)).prop_map(
-        |(declared, none, order, kind, a, m, z, hops, as_map)| MCase { declared, none, order, kind, a, m, z, hops, as_map },
+pub fn mcase(hops: impl Strategy<Value = Vec<Hop>>, enclosing: impl Strategy<Value = crate::obs::Enclosing>) -> impl Strategy<Value = MCase> {
+    (0u8..8, 0u8..8, 0u8..6, 0u8..3, any::<i64>(), crate::node::any_text(), any::<u64>(), hops, prop::bool::weighted(0.3), enclosing).prop_map(
+        |(declared, none, order, kind, a, m, z, hops, as_map, enclosing)| {
+            let enclosing = if enclosing == crate::obs::Enclosing::OtherKeys { crate::obs::Enclosing::None } else { enclosing };
+            MCase { declared, none, order, kind, a, m, z, hops, as_map, enclosing }
+        },
     )
 }
 
@@ -49,7 +56,7 @@ pub fn all_shapes() -> Vec<MCase> {
             for order in 0u8..6 {
                 for kind in 0u8..3 {
                     for hops in paths {
-                        out.push(MCase { declared, none, order, kind, a: -7, m: "text \"q\"".into(), z: u64::MAX, hops: hops.to_vec(), as_map: true });
+                        out.push(MCase { declared, none, order, kind, a: -7, m: "text \"q\"".into(), z: u64::MAX, hops: hops.to_vec(), as_map: true, enclosing: crate::obs::Enclosing::None });
                     }
                 }
             }
@@ -124,7 +131,7 @@ macro_rules! with_decl {
     }};
 }
 
-const WANT: Want = Want { ids: false, as_map: false, nohint: false };
+const WANT: Want = Want { ids: false, as_map: false, nohint: false, enc: crate::obs::Enclosing::None };
 
 fn keys(case: &MCase) -> Vec<&'static str> {
     let mut k = vec!["a", "m", "z"];
@@ -139,7 +146,8 @@ fn drive_all<P: Props + ?Sized>(case: &MCase, props: &P) -> Result<Vec<Vec<Read>
     let mut all = Vec::new();
     for key in keys(case) {
         let mut reads = Vec::new();
-        let want = Want { as_map: case.as_map && key == "a", ..WANT };
+        let enc = if case.enclosing == crate::obs::Enclosing::OtherKeys { crate::obs::Enclosing::None } else { case.enclosing };
+        let want = Want { as_map: case.as_map && key == "a", enc, ..WANT };
         drive(props, key, &case.hops, 0, want, &mut reads)?;
         all.push(reads);
     }
@@ -235,6 +243,9 @@ pub fn check(case: &MCase, cx: &mut Cx) -> Res {
             cx.fail(format!("siblings/{kind}/path-did-not-complete"), format!("{} reads for {} hops", reads.len(), case.hops.len()))?;
         }
         for r in reads {
+            if let Some(label) = r.enclosing {
+                cx.class(label);
+            }
             let at = format!("key `{key}` after {} hop(s) {:?}", r.hops, &case.hops[..r.hops.min(case.hops.len())]);
             if r.total != expected_total {
                 cx.fail(
